@@ -66,9 +66,18 @@ _known_cache: set | None = None
 def _known() -> set:
     global _known_cache
     if _known_cache is None:
+        import time
+
         from vf.runner import load_known
 
-        _known_cache = {f["kind"] for f in load_known("C08")}
+        for _attempt in range(3):  # a file of known_findings.d may be being rewritten right now
+            try:
+                _known_cache = {f["kind"] for f in load_known("C08")}
+                break
+            except (ValueError, OSError):
+                time.sleep(0.2)
+        else:
+            return set()
     return _known_cache
 
 
